@@ -12,6 +12,7 @@ CONSTANTS
   ZTCode = {10000,20067,30115,40153,50186,60215,80266,100310,120349,160417,200476,250542,300601,340644,400705,470769,500796,520813,530821,540829,550837,600877,640908,801022,1001148,2001643,3502184,5002617,10003711,10103730,10223752,10233754,10503803,10743847}
   ZDCode = {20233,30309,40372,50426,60475,70520,80561,90600,100636,110671,120703,130735,140765,150794,160822,170849,180876,200926,301146,501493,1002127,2003021,3003705,3073748}
   Delivery = "by_prior"
+  Passes = "user_table"
   QNum = {0,2,7,11,12,13,15,24,112,1012}
   QShift = 12
   QDen = {1,4}
